@@ -45,3 +45,10 @@ TABLE['C10'] = {
     'assumptions': ['ownership: the dispatcher fields are declared with sorts that admit weak references, class-level functions, strings and argument packs only; a store of any other field is a failed frame obligation'],
     'explanation': 'receiver-not-None obligation at every callback site, wf_D clause E3 (every stored reference is alive), _remove_weak_handler removes the reference from both tables.',
 }
+
+TABLE['C01'] = {
+    'modules': ['world_spec'], 'replay': 'world_replay', 'level': 'proof',
+    'trusted_base': T_STATE + ['class hierarchy theory: desc reflexive/transitive, __subclasses__() lists direct subclasses, every proper descendant is below a direct subclass'],
+    'assumptions': ['lifecycle callbacks (on_add/on_remove) may observe the world but do not modify it (C01 quantifies over sequences of World operations, not re-entrant ones)'],
+    'explanation': 'World methods verified against wf_W (index = transpose of table, no empty rows, exact-type storage) and the abstract view att.',
+}
